@@ -4,7 +4,6 @@
    a violation is attributed to the property whose predicate fails. *)
 From Coq Require Import List ZArith Bool Arith.
 From TR Require Export corr.Proc model.ProcAbs model.ProcSpec.
-From TR Require Import model.ProcExt.
 Import ListNotations.
 Open Scope Z_scope.
 
@@ -50,17 +49,10 @@ Definition proj (which : Z) (o : list out) : list out :=
     filter (fun x => match x with Call SConst _ _ | Call STest _ _ => true | _ => false end) o
   else o.
 
-(* the translated motionprocessor.go / frameloop.go run on the same events *)
-Definition source_trace (c : case) : list (list out) :=
-  map (strip_winq (c_win c))
-      (src_run (c_cfg c) (c_fm c) (c_fc c) (c_ft c) (map (fun s => ev_of (c_win c) (fst s)) (c_steps c))).
-
 Definition check_which (which : Z) (c : case) : Z :=
   let m := model_trace c in
   let i := map snd (c_steps c) in
-  let s := source_trace c in
-  code (trace_eqb (map (proj which) m) (map (proj which) i)) (spec which c i) (spec which c m)
-  + code_src (trace_eqb (map (proj which) s) (map (proj which) m)) (spec which c s).
+  code (trace_eqb (map (proj which) m) (map (proj which) i)) (spec which c i) (spec which c m).
 
 Definition explain (c : case) :=
   let m := model_trace c in
